@@ -136,6 +136,10 @@ func c17Body(rc *RunCtx) {
 	disk.MkdirAllRaw(c17Home)
 	disk.WriteRaw(c17Home+"/secret.txt", []byte("TOP-SECRET-OUTSIDE-LOGS\n"))
 	disk.WriteRaw("/etc/passwd", []byte("root:x:0:0:OUTSIDE\n"))
+	// siblings of the logs directory whose names merely start with "logs"
+	disk.WriteRaw(c17Home+"/logs_private/secret.txt", []byte("SIBLING-SECRET\n"))
+	disk.WriteRaw(c17Home+"/logs.old/app.log", []byte("SIBLING-OLD-LOG\n"))
+	disk.WriteRaw(c17Home+"/logsink/data.bin", []byte("SIBLING-DATA\n"))
 	d.LogID = []string{"whatap", "RUM", "wa"}[simrt.Choose(3)]
 	d.Oname = []string{"boot", "rumctl", "agent-1"}[simrt.Choose(3)]
 	d.Level = 2 // default warn
@@ -338,7 +342,8 @@ func c17Body(rc *RunCtx) {
 				if !d.Rotation {
 					today = fmt.Sprintf("%s-%s.log", d.LogID, d.Oname)
 				}
-				names := []string{today, today, "missing.log", "../secret.txt", "../../etc/passwd", "sub/../../secret.txt", "/etc/passwd", "unrelated.txt", "./" + today}
+				names := []string{today, today, "missing.log", "../secret.txt", "../../etc/passwd", "sub/../../secret.txt", "/etc/passwd", "unrelated.txt", "./" + today,
+					"../logs_private/secret.txt", "../logs.old/app.log", "../logsink/data.bin", "x/../../logs_private/secret.txt", "..", "../logs/../secret.txt"}
 				name := names[simrt.Choose(len(names))]
 				var size int64
 				if b, ok := disk.ReadRaw(filepath.Join(c17Home, "logs", name)); ok {
